@@ -75,13 +75,20 @@ def run_jobs(jobs, workers=None, progress=None, group_size=None):
     groups = {}
     for i, job in enumerate(jobs):
         groups.setdefault(env_key(job.get("env")), []).append(i)
-    # split large groups so that all workers stay busy
+    # split large groups so that all workers stay busy; strided so that neighbouring
+    # (similarly expensive) jobs land in different units
     n_jobs = len(jobs)
-    target = group_size or max(1, min(64, -(-n_jobs // (workers * 3))))
     units = []
     for key, idxs in sorted(groups.items()):
-        for s in range(0, len(idxs), target):
-            units.append((key, idxs[s:s + target]))
+        if group_size:
+            n_units = -(-len(idxs) // group_size)
+        else:
+            n_units = max(1, min(len(idxs), round(len(idxs) / n_jobs * workers * 3)))
+        for u in range(n_units):
+            part = idxs[u::n_units]
+            if part:
+                units.append((key, part))
+    units.sort(key=lambda u: -len(u[1]))
     # heavy units first
     results = [None] * n_jobs
     lock = threading.Lock()
